@@ -25,10 +25,12 @@ Request:
       | {"call":value} -> {"d":..,"c":D}|{"e":..}   {"vc":true} -> {"vc":D}
       | {"vcn":true} -> {"vc":D}: the var_context of a top-level Compose under `mkComposeN` (patched name keyword)
     -> {"r":[..]} | {"e":..,"phase":"init"}
-  {"op":"tok","names":[..],"fx":bool,"nk":bool,"expr":E,"val":value,"reps":k}   token model (Model/C14Tok.lean):
-    the objects of the variable's var_context, then of the value's context are numbered in pre-order (`labelT`);
-    the variable is applied `k` times, each time to the previous result (`callT`, `callsT`)
-    -> {"next":n,"vc":TVdict,"r":[{"c":TVdict,"w":[tokens written],"next":n,"sep":bool,"spine":[..],"erased":D} | {"e":..,"sep":bool} ..],"calls":[..]}
+  {"op":"tok","names":[..],"fx":bool,"nk":bool,"exprs":[E..],"val":value,"reps":k,"alias":[ckey,i,vkey]?}
+    token model (Model/C14Tok.lean): the objects of the variables' var_contexts, then of the value's context are
+    numbered in pre-order (`labelT`); the chain of variables is applied `k` times round, each application to the
+    previous result (`callT`, `seqT`, `callsT`); with `alias` the context's key `ckey` holds the very object
+    `var_context[vkey]` of variable `i`
+    -> {"next":n,"vcs":[TVdict..],"calls":[..],"calls1":[..]|null,"r":[{"c":TVdict,"w":[tokens written],"next":n,"sep":bool,"spine":[..],"erased":D} | {"e":..,"sep":bool} ..],"calls":[..]}
     TV: number | string | {"t":[..]} | {"l":[..],"k":tok} | {"d":[slots..],"k":tok}
 `nk` (optional, default false): `Compose` honours its `name` keyword (notes/C14_defect_2.patch). -/
 open Lean Lena.Drv Lena.C14 Lena.C14.Tok
@@ -243,44 +245,66 @@ def handle (j : Json) : Json :=
     | _, _, _, _ => err "bad attr args"
   | some "tok" =>
     match (arr? (getD j "names")).bind (fun a => a.toList.mapM str?), bool? (getD j "fx"),
-          toExpr (getD j "expr"), toValue (getD j "val"), nat? (getD j "reps") with
-    | some names, some fx, some e, some x, some reps =>
+          (arr? (getD j "exprs")).bind (fun a => a.toList.mapM toExpr), toValue (getD j "val"), nat? (getD j "reps") with
+    | some names, some fx, some es, some x, some reps =>
       let nk := (bool? (getD j "nk")).getD false
-      match evalExpr names fx nk Data.tuple e with
+      match evalArgs names fx nk Data.tuple es with
       | .error er => Json.mkObj [("e", errName er), ("phase", "init")]
-      | .ok none => err "tok: expression is not a Variable"
-      | .ok (some v) =>
-        -- number the objects of the variable, then those of the value's context (as the harness does with id())
-        match labelT 0 (.dict v.varCtx) with
-        | (.dict vt vc, n1) =>
-          let (ctx, next) : Option (Nat × TSlots) × Nat :=
-            match x with
-            | .bare _ => (none, n1)
-            | .pair _ c =>
-              match labelT n1 (.dict c) with
-              | (.dict ct cs, n2) => (some (ct, cs), n2)
-              | _ => (none, n1)
-          -- the steps of `callsT`, each with the hypothesis `sepB` and the spine of the value it was applied to
-          let rec go (k : Nat) (next : Nat) (ctx : Option (Nat × TSlots)) (acc : List Json) : List Json :=
-            match k with
-            | 0 => acc
-            | k + 1 =>
-              let sep := sepB next vt vc ctx
-              let spine := spineTokens names ctx
-              match callT names fx next vt vc ctx with
-              | .error er => acc ++ [Json.mkObj [("e", errName er), ("sep", Json.bool sep)]]
-              | .ok r =>
-                go k r.next (some (r.ctxTok, r.ctx))
-                  (acc ++ [Json.mkObj [("c", ofTV (.dict r.ctxTok r.ctx)), ("w", ofList ofNat r.writes), ("next", ofNat r.next),
-                                       ("sep", Json.bool sep), ("spine", ofList ofNat spine),
-                                       ("ctoks", ofList ofNat (ctxTokens ctx)), ("erased", ofD (eraseS r.ctx))]])
-          let steps := go reps next ctx []
-          -- the same iteration through `callsT` (the definition the iteration theorem is about)
-          let viaCalls := (callsT names fx vt vc reps next ctx).map
-            (fun | .ok r => ofNat r.next | .error er => Json.str (errName er))
-          Json.mkObj [("r", Json.arr steps.toArray), ("calls", Json.arr viaCalls.toArray), ("next", ofNat next),
-                      ("vc", ofTV (.dict vt vc))]
-        | _ => err "tok: label"
+      | .ok as =>
+        if !as.all Option.isSome then err "tok: an expression is not a Variable" else
+        -- number the objects of the variables in order, then those of the value's context (as the harness does with id())
+        let (vars, n1) : List (Nat × TSlots) × Nat :=
+          (as.filterMap id).foldl (fun (acc : List (Nat × TSlots) × Nat) v =>
+            match labelT acc.2 (.dict v.varCtx) with
+            | (.dict vt vc, n) => (acc.1 ++ [(vt, vc)], n)
+            | _ => acc) ([], 0)
+        let (ctx0, next) : Option (Nat × TSlots) × Nat :=
+          match x with
+          | .bare _ => (none, n1)
+          | .pair _ c =>
+            match labelT n1 (.dict c) with
+            | (.dict ct cs, n2) => (some (ct, cs), n2)
+            | _ => (none, n1)
+        -- an aliasing case: key `alias[0]` of the context holds the very object `var_context[alias[2]]` of variable `alias[1]`
+        let ctx : Option (Nat × TSlots) :=
+          match arr? (getD j "alias"), ctx0 with
+          | some a, some (ct, cs) =>
+            match a.toList with
+            | [ck, vi, vk] =>
+              match str? ck, nat? vi, str? vk with
+              | some ck, some vi, some vk =>
+                match vars[vi]? with
+                | some (_, vc) => some (ct, setT cs (key names ck) (getT vc (key names vk)))
+                | none => ctx0
+              | _, _, _ => ctx0
+            | _ => ctx0
+          | _, _ => ctx0
+        let chain := (List.replicate reps vars).flatten
+        -- the steps of `seqT`, each with the hypothesis `sepB` (for every variable) and the spine of the value
+        let rec go (vs : List (Nat × TSlots)) (next : Nat) (ctx : Option (Nat × TSlots)) (acc : List Json) : List Json :=
+          match vs with
+          | [] => acc
+          | (vt, vc) :: r =>
+            let sep := vars.all (fun w => sepB next w.1 w.2 ctx)
+            let spine := spineTokens names ctx
+            match callT names fx next vt vc ctx with
+            | .error er => acc ++ [Json.mkObj [("e", errName er), ("sep", Json.bool sep)]]
+            | .ok res =>
+              go r res.next (some (res.ctxTok, res.ctx))
+                (acc ++ [Json.mkObj [("c", ofTV (.dict res.ctxTok res.ctx)), ("w", ofList ofNat res.writes), ("next", ofNat res.next),
+                                     ("sep", Json.bool sep), ("spine", ofList ofNat spine),
+                                     ("ctoks", ofList ofNat (ctxTokens ctx)), ("erased", ofD (eraseS res.ctx))]])
+        let steps := go chain next ctx []
+        -- the same iteration through `seqT` / `callsT` (the definitions the iteration theorems are about)
+        let viaSeq := (seqT names fx chain next ctx).map
+          (fun | .ok r => ofNat r.next | .error er => Json.str (errName er))
+        let viaCalls : Json :=
+          match vars with
+          | [(vt, vc)] => Json.arr ((callsT names fx vt vc reps next ctx).map
+              (fun | .ok r => ofNat r.next | .error er => Json.str (errName er))).toArray
+          | _ => Json.null
+        Json.mkObj [("r", Json.arr steps.toArray), ("calls", Json.arr viaSeq.toArray), ("calls1", viaCalls),
+                    ("next", ofNat next), ("vcs", ofList (fun w => ofTV (.dict w.1 w.2)) vars)]
     | _, _, _, _, _ => err "bad tok args"
   | _ => err "unknown op"
 
